@@ -565,6 +565,11 @@ static void BuildParts(bool thorough, verif::Result & res)
      { Seed s; s.name = "ws(upgrade | text, ping, bin-fragmented[stringx3], close)  [frames mutated after a completed upgrade]"; s.prefix = kWsRequest; MessageRef tm = GetMessageFromPool(PR_COMMAND_TEXT_STRINGS); (void)tm()->AddString(PR_NAME_TEXT_LINE, "hello"); (void)tm()->AddString(PR_NAME_TEXT_LINE, "world");
        s.bytes = WsFrame(1, true, "hello\r\nworld", true, 0, 0x31) + WsFrame(9, true, "pp", true, 0, 0x32) + WsFrame(2, false, f2.substr(0, 10), true, 0, 0x33) + WsFrame(0, true, f2.substr(10), true, 0, 0x34) + WsFrame(8, true, "", true, 0, 0x35);
        std::vector<MessageRef> t; t.push_back(tm); t.push_back(seqs[1][0]); s.expect = CanonOf(t); s.numMsgs = 2; p.seeds.push_back(s); }
+     // (a control frame BETWEEN the fragments of a message is legal RFC 6455 but not supported by this gateway -- it takes any FIN frame as the end of the
+     //  pending message -- so the seed has none; its expectations are about zero-length continuation frames only)
+     { Seed s; s.name = "ws(upgrade | bin-fragment[stringx3 part 1], EMPTY continuation, EMPTY continuation, final continuation, bin[mix3])  [zero-length frames while a fragment is pending]"; s.prefix = kWsRequest;
+       s.bytes = WsFrame(2, false, f2.substr(0, 10), true, 0, 0x41) + WsFrame(0, false, "", true, 0, 0x42) + WsFrame(0, false, "", true, 0, 0x43) + WsFrame(0, true, f2.substr(10), true, 0, 0x44) + WsFrame(2, true, f1, true, 0, 0x45);
+       std::vector<MessageRef> t; t.push_back(seqs[1][0]); t.push_back(seqs[0][0]); s.expect = CanonOf(t); s.numMsgs = 2; p.seeds.push_back(s); }
      p.run = RunStreamGateway; GwKind k; k.make = MakeWsServer; k.canon = CANON_MSGS; g_gw[p.name] = k; g_parts.push_back(p); }
    // WebSocket, client role: stream produced by the real server-role gateway in answer to the (pinned-key) client request
    { PartDef p; p.name = "gw_websocket_client"; p.entry = "WebSocketMessageIOGateway::DoInput (client role: HTTP 101 answer + unmasked frames from the real server-role gateway)"; p.modes = 2; p.bigEndianToo = true;
